@@ -281,6 +281,84 @@ theorem rinv_peekNotSpace {input : List Char} {s s' : PState} {o : Option (Char 
     (e : peekNotSpace s = .ok (o, s')) : RInv input s' :=
   rinv_peekNotSpaceN s.fuel h e
 
+/-! ### the two whitespace loops never exhaust the bound -/
+
+def unread (s : PState) : Nat := s.readahead.length + s.rest.length
+
+theorem readRune_measure (s : PState) :
+    (∃ s', readRune s = .ok (none, s')) ∨ (∃ r s', readRune s = .ok (some r, s') ∧ unread s' + 1 = unread s) := by
+  unfold readRune unread
+  cases hra : s.readahead with
+  | cons r ra => exact Or.inr ⟨r, _, rfl, by simp; omega⟩
+  | nil =>
+    simp only
+    by_cases hio : s.ioerr = true
+    · simp only [hio, if_true]; exact Or.inl ⟨_, rfl⟩
+    · simp only [hio]
+      cases hrest : s.rest with
+      | nil => exact Or.inl ⟨_, rfl⟩
+      | cons r rest => exact Or.inr ⟨r, _, rfl, by simp [hra]⟩
+
+theorem peek_measure (s : PState) :
+    (∃ s', peek s = .ok (none, s')) ∨ (∃ r s', peek s = .ok (some r, s') ∧ unread s' + 1 = unread s) := by
+  unfold peek
+  rcases readRune_measure s with ⟨s1, h1⟩ | ⟨r, s1, h1, hm⟩
+  · exact Or.inl ⟨s1, by simp [bind, P.bind, h1, pure, P.pure]⟩
+  · exact Or.inr ⟨r, { s1 with lookahead := s1.lookahead ++ [r], lookaheadPos := s1.lookaheadPos.advance r s1.u16 },
+      by simp only [bind, P.bind, h1, pure, P.pure, modify], hm⟩
+
+theorem read_measure (s : PState) :
+    (∃ s', read s = .ok (none, s')) ∨ (∃ r s', read s = .ok (some r, s') ∧ unread s' + 1 = unread s) := by
+  unfold read
+  rcases readRune_measure s with ⟨s1, h1⟩ | ⟨r, s1, h1, hm⟩
+  · exact Or.inl ⟨s1, by simp [bind, P.bind, h1, pure, P.pure]⟩
+  · let p := s1.pos.advance r s1.u16
+    let s2 : PState := { s1 with pos := p, lookaheadPos := p, consumed := r :: s1.consumed, guardOk := s1.guardOk && s1.lookahead.isEmpty }
+    exact Or.inr ⟨r, s2, by simp only [bind, P.bind, h1, pure, P.pure, modify]; rfl, hm⟩
+
+theorem peekNotSpaceN_ok (n : Nat) : ∀ (s : PState) (k : Nat), unread s < n →
+    ∃ o s', loopN n peekNotSpaceBody k s = .ok (o, s') := by
+  induction n with
+  | zero => intro s k h; omega
+  | succ n ih =>
+    intro s k h
+    unfold loopN peekNotSpaceBody
+    rcases peek_measure s with ⟨s1, h1⟩ | ⟨r, s1, h1, hm⟩
+    · exact ⟨none, s1, by simp [bind, P.bind, h1, pure, P.pure]⟩
+    · by_cases hsp : isSpace r = true
+      · obtain ⟨o, s', e⟩ := ih s1 (if r = '\n' then k + 1 else k) (by omega)
+        exact ⟨o, s', by simp only [bind, P.bind, h1, hsp, if_true, pure, P.pure]; exact e⟩
+      · exact ⟨some (r, k), s1, by simp [bind, P.bind, h1, hsp, pure, P.pure]⟩
+
+theorem readNotSpaceN_ok (n : Nat) : ∀ (s : PState), unread s < n →
+    ∃ o s', loopN n readNotSpaceBody () s = .ok (o, s') := by
+  induction n with
+  | zero => intro s h; omega
+  | succ n ih =>
+    intro s h
+    unfold loopN readNotSpaceBody
+    rcases read_measure s with ⟨s1, h1⟩ | ⟨r, s1, h1, hm⟩
+    · exact ⟨none, s1, by simp [bind, P.bind, h1, pure, P.pure]⟩
+    · by_cases hsp : isSpace r = true
+      · obtain ⟨o, s', e⟩ := ih s1 (by omega)
+        exact ⟨o, s', by simp only [bind, P.bind, h1, hsp, if_true, pure, P.pure]; exact e⟩
+      · exact ⟨some r, s1, by simp [bind, P.bind, h1, hsp, pure, P.pure]⟩
+
+/-- under the invariant the unread part is at most the input, so with the bound the entry points use
+    (`fuelFor input = |input| + 4`) `peekNotSpace` and `readNotSpace` always return -/
+theorem unread_le_input {input : List Char} {s : PState} (h : RInv input s) : unread s ≤ input.length := by
+  have := congrArg List.length h.split
+  simp only [List.length_append, List.length_reverse] at this
+  unfold unread; omega
+
+theorem peekNotSpace_terminates {input : List Char} {s : PState} (h : RInv input s) (hf : input.length < s.fuel) :
+    ∃ o s', peekNotSpace s = .ok (o, s') :=
+  peekNotSpaceN_ok s.fuel s 0 (Nat.lt_of_le_of_lt (unread_le_input h) hf)
+
+theorem readNotSpace_terminates {input : List Char} {s : PState} (h : RInv input s) (hf : input.length < s.fuel) :
+    ∃ o s', readNotSpace s = .ok (o, s') :=
+  readNotSpaceN_ok s.fuel s (Nat.lt_of_le_of_lt (unread_le_input h) hf)
+
 /-- the reader operations the parser is written in -/
 inductive ROp where
   | read | peek | peekn (n : Nat) | readNotSpace | peekNotSpace | commit | rewind | replay (r : Char)
